@@ -36,6 +36,30 @@ CLAIMS = {
              "FIFO order of the observed enqueues (hook), idle only when quiescent, external events in send order each "
              "once, and an event without enabled transition leaves no observation.",
         note=CORE_NOTE),
+    "C06": dict(
+        category="model_checking", design_ref="4/C06",
+        technique="TLC model checking of Session.tla (HistShape) + lock-step trace validation against Sem.tla on history documents",
+        text="For history templates (shallow/deep, nested, several per parent, in parallel regions, as initial target) and "
+             "history-containing generated documents, every maximal behaviour (event sequences up to 4/5 so that states "
+             "are left and re-entered) is replayed; the recorded entry sets, their order and the default-transition content "
+             "marks must equal what Sem.tla computes from the history value recorded at exit time.",
+        note=CORE_NOTE),
+    "C07": dict(
+        category="model_checking", design_ref="4/C07",
+        technique="TLC model checking of Session.tla (StoppedMeansFinal) + lock-step trace validation (classes ienq/exit/final/afterfinal)",
+        text="For final-state templates (compound, parallel regions, nested parallels, top-level final with queued events, "
+             "cancel) and generated documents with finals: the observed done.state.* enqueues (order, exactly once), the "
+             "absence of any step after a top-level final, the onexit marks of exitInterpreter in exit order and the "
+             "reported final configuration must equal the model's. Not covered: donedata payload, done.invoke (C14).",
+        note=CORE_NOTE),
+    "C19": dict(
+        category="model_checking", design_ref="4/C19",
+        technique="trace validation of probe documents against Sem.NameMatch (token-prefix matching) under TLC",
+        text="One probe document per event-descriptor list (1-2 tokens, spellings d / d. / d.*, '*', lists) over a token "
+             "alphabet with ASCII, accented, CJK, decomposed and astral tokens; every name (1-3 tokens, incl. empty "
+             "tokens) is sent as external event and a subset raised internally; TLC checks for every received event that "
+             "the transition the interpreter selected is the one Sem.NameMatch prescribes. Bounded-exhaustive over the alphabet.",
+        note=CORE_NOTE + " The reader's descriptor normalisation is part of what is checked."),
 }
 
 NOT_YET = {
